@@ -88,7 +88,7 @@ static std::vector<std::string> vtokens(const std::string &s) {
 }
 
 int main(int argc, char **argv) {
-  ctx = parse_args("C16", argc, argv, 150, 1500);
+  ctx = parse_args("C16", argc, argv, 300, 1500);
   Report rep; rep.ctx = ctx;
   auto K = corners(true, ctx.thorough()); uint64_t nk = K.size();
   std::vector<uint32_t> PCK = {0, 1, 2, 3, 799999, 0x1FFFFF, 0x1FFFFE, 0x100000, 0xFFFFF, 400001};
